@@ -89,6 +89,7 @@ def build_harness(libdir):
     if os.path.exists(exe) and os.path.exists(st) and open(st).read() == stamp:
         return exe
     cmd = ["clang-14", "-w", "-DLIBTPMS_VERIF"] + TPM2_INC + SAN + [os.path.join(VERIF, "harness", "tpmdrv.c"),
+           os.path.join(VERIF, "harness", "peek.c"),
            os.path.join(libdir, "libtpms_san.a"), "-lcrypto", "-lpthread", "-o", exe]
     r = sh(cmd, cwd=os.path.join(REPO, "src"))
     if r.returncode != 0:
